@@ -824,6 +824,133 @@ def process_global_setting(model: Model, fn: FunctionInfo) -> list[Lint]:
     return out
 
 
+def registered_once_from_arguments(model: Model, fn: FunctionInfo) -> list[Lint]:
+    """``csv.register_dialect(NAME, ..)`` under ``if NAME not in csv.list_dialects()`` with formatting parameters
+    taken from the function's own arguments: the registry is process-wide, so the first call's arguments are the
+    dialect for every later call - whatever separator those calls ask for."""
+    out: list[Lint] = []
+    params = {a.arg for a in fn.node.args.posonlyargs + fn.node.args.args + fn.node.args.kwonlyargs}
+    # locals computed from parameters count as parameters (one step: `delimiter = sep or "\t"`)
+    derived = set(params)
+    for n in ast.walk(fn.node):
+        if isinstance(n, ast.Assign) and len(n.targets) == 1 and isinstance(n.targets[0], ast.Name):
+            if any(isinstance(x, ast.Name) and x.id in params for x in ast.walk(n.value)):
+                derived.add(n.targets[0].id)
+    for n in ast.walk(fn.node):
+        if not isinstance(n, ast.If) or "list_dialects" not in ast.unparse(n.test):
+            continue
+        if not (isinstance(n.test, ast.Compare) and len(n.test.ops) == 1 and isinstance(n.test.ops[0], ast.NotIn)):
+            continue
+        for c in (c for st in n.body for c in ast.walk(st)):
+            if isinstance(c, ast.Call) and ast.unparse(c.func).endswith("register_dialect") and c.args:
+                if ast.unparse(c.args[0]) != ast.unparse(n.test.left):
+                    continue
+                from_args = sorted({x.id for k in c.keywords for x in ast.walk(k.value) if isinstance(x, ast.Name) and x.id in derived})
+                if from_args:
+                    out.append(Lint("registered-once-from-arguments", fn, c.lineno, "csv.register_dialect", f"`{ast.unparse(c)[:70]}` runs only while `{ast.unparse(n.test.left)}` is not yet in csv's process-wide dialect registry, with formatting taken from {fn.name}'s own argument(s) {', '.join(from_args)}: the first call's value is the dialect of every later call - a later call that asks for another separator reads and writes its file with the first one"))
+    return out
+
+
+_PRIORITY_ORDERED = ("expand_pair_all", "expand_all", "expand_reference_all")
+
+
+def priority_order_lost(model: Model, fn: FunctionInfo) -> list[Lint]:
+    """The ``*_all`` expansions return the URIs in priority order - the standard one first, then one per URI prefix
+    synonym. ``sorted(..)`` (or a set) of such a result, read BY POSITION afterwards (``[0]``, ``first, *rest = ..``),
+    takes the alphabetically smallest URI for the standard one."""
+    out: list[Lint] = []
+
+    def ordered_call(e) -> bool:
+        return isinstance(e, ast.Call) and isinstance(e.func, ast.Attribute) and e.func.attr in _PRIORITY_ORDERED
+
+    names = set()
+    for n in ast.walk(fn.node):
+        if isinstance(n, ast.Assign) and len(n.targets) == 1 and isinstance(n.targets[0], ast.Name) and ordered_call(n.value):
+            names.add(n.targets[0].id)
+    if not names and not any(ordered_call(n) for n in ast.walk(fn.node)):
+        return out
+    # a name bound once only: `uris = c.expand_pair_all(..)` rebinding would make the judgement path dependent
+    for nm in list(names):
+        binds = [n for n in ast.walk(fn.node) if isinstance(n, ast.Name) and n.id == nm and isinstance(n.ctx, ast.Store)]
+        if len(binds) != 1:
+            names.discard(nm)
+
+    def strip(e):
+        while isinstance(e, ast.Call) and isinstance(e.func, ast.Name) and e.func.id in ("list", "tuple") and len(e.args) == 1 and not e.keywords:
+            e = e.args[0]
+        return e
+
+    def is_source(e) -> bool:
+        e = strip(e)
+        return ordered_call(e) or (isinstance(e, ast.Name) and e.id in names)
+
+    def reordered(e) -> str | None:
+        """`sorted(S)`, `sorted(set(S))`, `set(S)`, `frozenset(S)` of a priority-ordered result S (no key=: a key may
+        well encode the priority)."""
+        e = strip(e)
+        if isinstance(e, ast.Call) and isinstance(e.func, ast.Name) and len(e.args) == 1:
+            if e.func.id == "sorted" and not any(k.arg == "key" for k in e.keywords):
+                inner = strip(e.args[0])
+                if is_source(inner) or (isinstance(inner, ast.Call) and isinstance(inner.func, ast.Name) and inner.func.id in ("set", "frozenset") and len(inner.args) == 1 and is_source(inner.args[0])):
+                    return "sorted"
+        return None
+
+    lost = {}
+    for n in ast.walk(fn.node):
+        if isinstance(n, ast.Assign) and len(n.targets) == 1 and reordered(n.value):
+            t = n.targets[0]
+            if isinstance(t, ast.Name):
+                lost[t.id] = n
+            elif isinstance(t, (ast.Tuple, ast.List)) and t.elts and not isinstance(t.elts[0], ast.Starred) and isinstance(t.elts[0], ast.Name):
+                out.append(Lint("priority-order-lost", fn, n.lineno, t.elts[0].id, f"`{ast.unparse(n)[:80]}`: the expansions are returned in priority order (the standard URI first, then one per URI prefix synonym); sorted() puts the alphabetically smallest one first, and `{t.elts[0].id}` is then taken for the standard URI - for a record whose synonym sorts before its URI prefix the answer is the synonym's URI"))
+        elif isinstance(n, ast.Subscript) and isinstance(n.slice, ast.Constant) and n.slice.value == 0 and reordered(n.value):
+            out.append(Lint("priority-order-lost", fn, n.lineno, "[0]", f"`{ast.unparse(n)[:80]}`: the first of the SORTED expansions is the alphabetically smallest URI, not the standard one (the *_all expansions come in priority order)"))
+    for nm, a in lost.items():
+        binds = [n for n in ast.walk(fn.node) if isinstance(n, ast.Name) and n.id == nm and isinstance(n.ctx, ast.Store)]
+        if len(binds) != 1:
+            continue
+        for n in ast.walk(fn.node):
+            if isinstance(n, ast.Subscript) and isinstance(n.value, ast.Name) and n.value.id == nm and isinstance(n.slice, ast.Constant) and n.slice.value == 0 and isinstance(n.ctx, ast.Load):
+                out.append(Lint("priority-order-lost", fn, n.lineno, nm, f"`{nm}[0]` after `{ast.unparse(a)[:60]}`: the first of the SORTED expansions is the alphabetically smallest URI, not the standard one (the *_all expansions come in priority order)"))
+    return out
+
+
+def sorted_optional_keys(model: Model, fn: FunctionInfo) -> list[Lint]:
+    """``sorted(param)`` / ``sorted(param.items())`` / ``sorted(param.keys())`` without ``key=`` on a parameter whose
+    annotation says the keys (or elements) are ``str | None`` / ``Optional[str]``: comparing None with a str raises
+    TypeError as soon as both occur - the author's own annotation says they may."""
+    out: list[Lint] = []
+
+    def optional_first(ann) -> bool:
+        # Mapping[str | None, X], dict[Optional[str], X], Iterable[str | None], Collection[None | str] ..
+        if not isinstance(ann, ast.Subscript):
+            return False
+        first = ann.slice.elts[0] if isinstance(ann.slice, ast.Tuple) and ann.slice.elts else ann.slice
+        txt = ast.unparse(first)
+        if isinstance(first, ast.BinOp) and isinstance(first.op, ast.BitOr):
+            parts = [x.strip() for x in txt.split("|")]
+            return "None" in parts and len(parts) > 1
+        return txt.startswith(("Optional[", "typing.Optional[", "t.Optional["))
+
+    params = {}
+    for a in fn.node.args.posonlyargs + fn.node.args.args + fn.node.args.kwonlyargs:
+        if a.annotation is not None and optional_first(a.annotation):
+            params[a.arg] = a
+    if not params:
+        return out
+    stored = {n.id for n in ast.walk(fn.node) if isinstance(n, ast.Name) and isinstance(n.ctx, ast.Store)}
+    for n in ast.walk(fn.node):
+        if not (isinstance(n, ast.Call) and isinstance(n.func, ast.Name) and n.func.id == "sorted" and len(n.args) == 1 and not any(k.arg == "key" for k in n.keywords)):
+            continue
+        a = n.args[0]
+        if isinstance(a, ast.Call) and isinstance(a.func, ast.Attribute) and a.func.attr in ("items", "keys") and not a.args:
+            a = a.func.value
+        if isinstance(a, ast.Name) and a.id in params and a.id not in stored:
+            ann = ast.unparse(params[a.id].annotation)
+            out.append(Lint("sorted-optional-keys", fn, n.lineno, a.id, f"`{ast.unparse(n)[:60]}` sorts `{a.id}: {ann[:50]}` as it comes: by its own annotation a None stands next to strings there, and comparing the two raises TypeError - the caller gets that instead of the error this function was about to describe"))
+    return out
+
+
 def module_level_one_shot(model: Model, fn: FunctionInfo) -> list[Lint]:
     """A module-level name bound to a one-shot iterator (generator expression, map / filter / zip ..) and read inside
     a function: the first call that iterates it uses it up, every later call sees an empty iterator."""
@@ -902,10 +1029,13 @@ def scan(model: Model, files: set[str] | None = None) -> tuple[list[Lint], int]:
     _one_shot_producers(model)
     for fn in model.functions.values():
         out += process_global_setting(model, fn)  # process-wide: whichever file it sits in
+        out += registered_once_from_arguments(model, fn)
         if files is not None and fn.module.relpath not in files:
             continue
         n += 1
         out += one_shot_reuse(model, fn)
+        out += priority_order_lost(model, fn)
+        out += sorted_optional_keys(model, fn)
         out += mutable_defaults(model, fn)
         out += bisect_unsorted(model, fn)
         out += mutate_while_iterating(model, fn)
